@@ -32,3 +32,6 @@ def run(ctx, rep):
     more5.rule_zero_skip(mod, rep)
     more5.rule_trsv_dense(mod, rep)
     more5.rule_row_cursor(mod, rep)
+    from ..rules import more6
+    more6.rule_alloc_range(mod, rep, floor=20, sel=lambda f: re.match(r"sp_[sdcz]|[sdcz]langs$|[sdcz]Copy|[sdcz]CompRow|[sdcz]gstrs$|[sdcz]gsrfs$|[sdcz]gscon$|[sdcz]PivotGrowth$", f.name) is not None)
+    more6.rule_precision_family(mod, rep, floor=20, sel=lambda f: re.match(r"sp_[sdcz]|[sdcz]langs$|[sdcz]Copy|[sdcz]CompRow|[sdcz]Create|[sdcz]gstrs$", f.name) is not None)
